@@ -98,8 +98,12 @@ type Explorer struct {
 	Tier           string
 	MaxFindings    int
 	NoMerge        bool
+	TreeMode       bool
+	onAssume       func(t *smt.Term)
 	Merges         int
 	Workers        int
+	BMCStates      int
+	BMCTransitions int
 	posHook        func() string
 	spawn          func(prefix []dec)
 	baseLen        int
@@ -181,6 +185,9 @@ func (e *Explorer) assume(t *smt.Term) {
 	}
 	e.pc = append(e.pc, t)
 	e.S.Assert(t)
+	if e.onAssume != nil {
+		e.onAssume(t)
+	}
 }
 
 func (e *Explorer) check(extra ...*smt.Term) smt.Result {
@@ -456,6 +463,14 @@ func (e *Explorer) decide(neg *smt.Term) (smt.Result, map[string]smt.Value) {
 // program can panic here.
 func (e *Explorer) requireNot(bad *smt.Term, msg string) {
 	if bad.IsFalse() {
+		return
+	}
+	if e.TreeMode {
+		// symbols bound by other threads are unconstrained here: the check
+		// becomes a branch whose failing side is a panic event
+		if e.Branch(bad) {
+			panic(targetPanic{msg})
+		}
 		return
 	}
 	e.Obligations++
